@@ -395,9 +395,10 @@ Section Close.
     destruct (y_step_spec W st Hall Hinv) as (_ & X1 & _ & _ & _ & _ & P2).
     unfold x_step_post, y_step_post, j_remaining, j_all_done in *.
     split; [|split; [|split]].
-    - intros En. rewrite Y1. rewrite En in P1. unfold x_enabled in En.
-      destruct (j_x st); try discriminate; rewrite P1; cbn; lia.
-    - intros En. rewrite X1. rewrite En in P2. unfold y_enabled in En.
+    - intros En. rewrite Y1. rewrite En in P1. unfold x_enabled in En. generalize (j_rank (j_y st)); intros ry.
+      destruct (j_x st); try discriminate; rewrite P1; cbn.
+      all: lia.
+    - intros En. rewrite X1. rewrite En in P2. unfold y_enabled in En. generalize (j_rank (j_x st)); intros rx.
       destruct (j_y st); try discriminate; rewrite P2; cbn; lia.
     - destruct (j_x st), (j_y st); cbn; lia.
     - destruct (j_x st), (j_y st); cbn; split; intros; try lia; try discriminate; reflexivity.
